@@ -348,7 +348,7 @@ class FakeSnowflakeCursor:
             self._duck_conn.execute(result_sql)
 
         self._arrow_table = self._duck_conn.fetch_arrow_table()
-        self._rowcount = affected_count or self._arrow_table.num_rows
+        self._rowcount = affected_count if affected_count is not None else self._arrow_table.num_rows
 
         self._last_sql = result_sql or sql
         self._last_params = params
